@@ -28,6 +28,7 @@ def run(rep, tier, seed):
             rep.violation(full, {"table": "CONFIGURABLE", "clause": name, "python": "import sys\nfrom ofxtools.scripts import ofxget as g\nsys.exit(17 if ('password' in g.CONFIGURABLE or 'userpass' in g.CONFIGURABLE) else 0)\n"})
     run_contracts(rep, "contracts.ofxget_config", tier, seed)
     run_contracts(rep, "contracts.ofxget_write", tier, seed)
+    run_contracts(rep, "contracts.ofxget_readcfg", tier, seed)
     run_contracts(rep, "contracts.ofxget_cli", tier, seed)
     run_contracts(rep, "contracts.ofxget_config_native", tier, seed)
     replay_known_findings(rep)
